@@ -4,6 +4,7 @@ from torchjd.aggregation import IMTLG, ConFIG, AlignedMTL
 
 ASSUMPTIONS = [
     "full row rank precondition: det(J J^T) > 0; IMTL-G on the free Gramian domain (pinv of a non-singular matrix = adj/det, decided by the solver), "
+    "ConFIG preference vectors: symbolic u >= 0 with sum > 0 (a zero entry asks for cosine zero with that row); default = uniform",
     "ConFIG entry-level (m = n = 2; pinv of a non-singular matrix = adj/det; 2 x 3 is out of the solver's reach), Aligned-MTL on the spectral domain (eigh answered from the eigenbasis, column signs by choice)",
     "Aligned-MTL's tolerance uses torch.finfo().eps = 2^-23 as in the code; 'bounded condition number' is the code's own rank test lambda > tol on every eigenvalue (assumed for the full-rank clause)",
     "IMTL-G m = 3: the clause is stated for matrices on which the normalisation is defined (v.sum() != 0 up to the code's guard), since no weights summing to one exist otherwise",
@@ -95,7 +96,8 @@ def case_config(sp, m, n, pref):
     assume(torch.linalg._det(G) > 0)
     u = [named(f"u{i}") for i in range(m)]
     for x in u:
-        assume(x > 0)
+        assume(x >= 0)  # a zero preference asks for cosine zero with that row: part of "proportional to it"
+    assume(rsum(u) > 0)
     out = ConFIG(pref_vector=T(u) if pref else None)(Jt)._flat()
     uu = u if pref else [R(1)] * m
     def cex(model):
@@ -106,7 +108,7 @@ def case_config(sp, m, n, pref):
     dots = [dot(out, J[i]) for i in range(m)]
     nrm = [G[i][i].sqrt() for i in range(m)]
     obs = [Ob("config_cosines_proportional_to_preferences", z3.And(*[(dots[i] * nrm[0] * uu[0]).eqz(dots[0] * nrm[i] * uu[i]) for i in range(1, m)]), cex),
-           Ob("config_cosines_positive", z3.And(*[(d > 0).z() for d in dots]), cex)]
+           Ob("config_cosines_positive", z3.And(*[z3.If((uu[i] > 0).z(), (dots[i] > 0).z(), dots[i].eqz(0)) for i in range(m)]), cex)]
     # |out| = sum_i <g_i, out/|out|>   <=>   |out|^2 = sum_i <g_i, out>
     obs.append(Ob("config_length_is_sum_of_projections", dot(out, out).eqz(rsum(dots)), cex))
     return obs
